@@ -374,7 +374,8 @@ static int Convert_mus2midi(uint8_t *in, uint32_t insize,
                                   __FUNCTION__, __LINE__, *cur);*/
                     goto _end;
                 }
-                bit1 = mus_midimap[*cur++];
+                /* A system event has ONE data byte: the controller number (10..14) */
+                bit1 = mus_midimap[*cur];
                 bit2 = (*cur++ == 12) ? header.channels + 1 : 0x00;
                 break;
             case MUSEVENT_CONTROLLERCHANGE:
